@@ -10,3 +10,5 @@ for k in $(seq 0 $((N-1))); do
 done
 for p in "${pids[@]}"; do wait $p; done
 if [ "$KIND" = seeds ]; then python3 tools/run_seeds.py --merge; else python3 tools/run_preserve.py --merge; fi
+# the scratch builds of the variants fill the go build cache (≈0.35 GB per variant): drop what was not used for two hours
+find "$(go env GOCACHE)" -type f -mmin +120 -delete 2>/dev/null || true
